@@ -17,7 +17,7 @@ ASSUMPTIONS = ['D1: an element with children carries single-line, field-free tex
                'depth rule: selfClosingStyle html with the void names of the built-in snippets (img br input hr meta link) not counted as open']
 FLOORS = {'quick': {'format-pair': 15000, 'comment-pair': 15000, 'selfclose-pair': 30000, 'depth-rule': 15000, 'depth-rule:d2': 800},
           'thorough': {'format-pair': 700000, 'comment-pair': 700000, 'selfclose-pair': 1400000, 'depth-rule': 700000, 'depth-rule:d2': 40000}}
-REQUIRED_MONITORS = ['oracle:stream-equal-format', 'oracle:stream-equal-comments', 'oracle:stream-equal-selfclose', 'oracle:indent-equals-depth']
+REQUIRED_MONITORS = ['oracle:stream-equal-format', 'oracle:stream-equal-comments', 'oracle:stream-equal-selfclose', 'oracle:indent-equals-depth', 'oracle:one-tree-printed-three-times']
 N = {'quick': 1500, 'thorough': 48000}
 SYNTAXES = ['html', 'xml', 'xsl', 'jsx', 'vue', 'svelte']
 VOID = {'img', 'br', 'input', 'hr', 'meta', 'link'}
@@ -151,8 +151,26 @@ class Mon:
                 ctx.seen((abbr, syntax, which, repr(sorted(opts.items(), key=repr))))
             return r[1]
 
-        variant(fopts, 'format-pair', 'oracle:stream-equal-format')
+        fo = variant(fopts, 'format-pair', 'oracle:stream-equal-format')
         variant(copts, 'comment-pair', 'oracle:stream-equal-comments')
+        if fo is not None and ctx.counts['format-pair'] % 4 == 0:
+            # the same options on ONE parsed tree through the public two-step route, printed under the comment options, under the
+            # format options, and unformatted: a formatter that leaves marks in the tree it prints shows only here
+            import emmet
+            from emmet.config import Config
+            ctx.mon('oracle:one-tree-printed-three-times')
+
+            def three():
+                mk = lambda o: Config({'syntax': syntax, 'options': dict(o, **{'output.field': visible_field})})
+                c1, c2, c3 = mk(copts), mk(fopts), mk({'output.format': False})
+                tree = emmet.markup_abbreviation(abbr, c2)
+                return [emmet.stringify_markup(tree, c) for c in (c1, c2, c3)]
+            r3 = core.call(three)
+            if r3[0] == 'exc':
+                ctx.violation('exception', dict(case, which='one tree printed three times'), {'exc': list(core.exc_site(r3[1]))})
+            elif r3[1][1] != fo or r3[1][2] != rb[1]:
+                ctx.violation('tree-changed-by-printing', dict(case, which='one tree printed three times'),
+                              {'format_options_fresh': fo[:200], 'format_options_reused_tree': r3[1][1][:200], 'unformatted_fresh': rb[1][:200], 'unformatted_reused_tree': r3[1][2][:200]})
         closers = {}
         for style in ('xhtml', 'xml'):
             o = variant({'output.format': False, 'output.selfClosingStyle': style}, 'selfclose-pair', 'oracle:stream-equal-selfclose', ignore_closer=True)
